@@ -64,14 +64,14 @@ PROPS = {
     },
     "C19": {
         "crate": TABLES, "target": "kani-tables",
-        "patterns": {"quick": ["c19::quick::"], "thorough": ["c19::quick::"]},
-        "min_harnesses": {"quick": 10, "thorough": 10},
+        "patterns": {"quick": ["c19::quick::", "c19::growth::"], "thorough": ["c19::quick::", "c19::growth::"]},
+        "min_harnesses": {"quick": 16, "thorough": 16},
         "jobs": 8, "timeout": {"quick": 1500, "thorough": 3000},
         "extra": ["-Z", "stubbing"], "env": {"RUSTFLAGS": "--cfg ascent_verif"},
         "level": "model_checking",
         "functions": TABLES_FUNCS_C19,
-        "bounds": "keys and values from 3 constants; new/delta/total filled by symbolic insert sequences of <= 2 slots each (RelFullIndexType<(u8,u8),()>, RelFullIndexType<(u8,),usize>, LatticeIndexType<(u8,),usize>, RelNoIndexType) resp. <= 1 delta + <= 1 total slot for the merge of the Vec-backed RelIndexType1<(u8,),(u8,)> / ToRelIndexType (<= 3 slots for insert/lookup/iterate, 2+2 for the combined view); every key of the domain is observed through a symbolic query key; table capacity 4; unwind 2..3 (7 for RelNoIndexType). thorough adds 2-against-1 merges of RelIndexType1 (both outcomes of the per-key vector swap), which did not finish within 900 s when measured",
-        "stubs": TABLES_STUBS,
+        "bounds": "keys and values from 3 constants; new/delta/total filled by symbolic insert sequences of <= 2 slots each (RelFullIndexType<(u8,u8),()>, RelFullIndexType<(u8,),usize>, LatticeIndexType<(u8,),usize>, RelNoIndexType) resp. <= 1 delta + <= 1 total slot for the merge of the Vec-backed RelIndexType1<(u8,),(u8,)> / ToRelIndexType (<= 3 slots for insert/lookup/iterate, 2+2 for the combined view); every key of the domain is observed through a symbolic query key; table capacity 4; unwind 2..3 (7 for RelNoIndexType). thorough adds 2-against-1 merges of RelIndexType1 (both outcomes of the per-key vector swap), which did not finish within 900 s when measured. c19::growth: one key whose bucket (Vec<usize>) grows beyond its first allocation during the merge, concrete shapes delta+total = 5+1, 1+5, 3+2, 2+3, 4+2, 2+4 with symbolic row numbers (< 64); heap growth modelled as 'next size class + copy' (stub realloc_size_classes)",
+        "stubs": TABLES_STUBS + ["c19::growth only: std::alloc::alloc = one of four constant block sizes (8/32/128/512 bytes), alloc::alloc::realloc_nonnull = block of the next size class + copy of the old block (constant length), dealloc = no-op (so that no heap object has a symbolic size)"],
         "assumptions": COMMON_ASSUME + TABLES_ASSUME + [
             "serial index types only; the concurrent (c_*) types, freeze/unfreeze and thread interleavings are outside the claim",
             "RelFullIndexType with a key present in both delta and total: the merged value is asserted to be one of the two (which one depends on the relative sizes); generated code never creates that situation with different values",
